@@ -557,10 +557,25 @@ def run_impl(ctx, lines, timeout=3600):
     if os.environ.get("VERIF_SAVE_REQS"):          # author-side: record the request stream (coverage measurement of the tie)
         with open(os.path.join(os.environ["VERIF_SAVE_REQS"], f"{ctx.prop}.txt"), "a") as f:
             f.write("\n".join(lines) + "\n")
-    rc, out, err = run([IMPL], inp="\n".join(lines) + "\n", timeout=timeout)
-    if rc != 0:
-        raise RuntimeError(f"harness impl died rc={rc}: " + err[-2000:])
-    return out.splitlines()
+    results, rest, deaths = [], [l for l in lines], 0
+    while True:
+        rc, out, err = run([IMPL], inp="\n".join(rest) + "\n", timeout=timeout)
+        got = out.splitlines()
+        if rc == 0:
+            return results + got
+        # the process died (stack overflow, abort, illegal instruction: nothing `catch_unwind` can contain). Every answer is flushed before
+        # the next request is read, so the request after the last answer is the one that killed it: it is answered `panic ...` (a crash is a
+        # crash for every property that excludes panics) and the remaining requests go to a fresh process
+        nonempty = [k for k, l in enumerate(rest) if l]
+        if len(got) >= len(nonempty) or deaths >= 2000:
+            raise RuntimeError(f"harness impl died rc={rc}: " + err[-2000:])
+        deaths += 1
+        killer = nonempty[len(got)]
+        results += got + [f"panic the process died with status {rc} on this request: " + " ".join(err[-300:].split())]
+        ctx.log(f"the implementation process died (rc={rc}) on request: {rest[killer][:200]}")
+        rest = rest[killer + 1:]
+        if not rest:
+            return results
 
 
 def canon(resp):
